@@ -97,9 +97,25 @@ Proof.
         cbn [rev]. rewrite rev_involutive. reflexivity.
 Qed.
 
+Theorem source_compact s : Inv0 s -> src_compact s = m_compact s.
+Proof.
+  intros H. unfold src_compact, m_compact.
+  destruct (dead s) as [|ab t] eqn:D; [reflexivity|]. cbn [is_nonempty negb]. cbv zeta.
+  assert (LE : length (imap s) <= length (items s)).
+  { rewrite (inv_len s H). apply live_of_length_le. }
+  assert (DC : dead_countZ s = Z.of_nat (dead_count s)).
+  { unfold dead_countZ, dead_count, zlen. lia. }
+  unfold set_items, set_imap, set_dead, py_del_tail. cbn [items imap dead]. rewrite DC.
+  destruct (dead_count s =? 0) eqn:C.
+  - apply Nat.eqb_eq in C. rewrite C. reflexivity.
+  - apply Nat.eqb_neq in C.
+    replace (Z.of_nat (dead_count s) <=? 0)%Z with false by (symmetry; apply Z.leb_gt; lia).
+    rewrite Nat2Z.id. reflexivity.
+Qed.
+
 Theorem source_cull s : Inv0 s -> src_cull s = m_cull gen_cfg s.
 Proof.
-  intros H. unfold src_cull, m_cull.
+  intros H. unfold src_cull, m_cull. rewrite !(source_compact s H).
   destruct (dead s) as [|ab t] eqn:D; [reflexivity|]. cbn [is_nonempty negb].
   destruct (imap s) as [|kv m] eqn:M.
   - cbn [is_nonempty negb length Nat.eqb]. cbv zeta. unfold set_dead, set_items. cbn [items imap dead]. rewrite M. reflexivity.
